@@ -344,7 +344,7 @@ func mergeViol(m map[string]*violRec, v *violRec) {
 
 func main() {
 	log.Root().SetHandler(log.DiscardHandler())
-	r := vk.Start("C14", "model_checking")
+	r := vk.Start("C14", "fault_enumeration")
 	if *workerFlag {
 		workerMain()
 		return
